@@ -450,19 +450,21 @@ func (o *ObjectSchema) Validate(data any) error {
 }
 
 func (o *ObjectSchema) applySubObjectDefaultValues(propertyID string, property *PropertySchema, rawData map[string]any) {
-	o.applySubObjectDefaultValuesRecursive(o, propertyID, property, rawData, map[Object]struct{}{})
+	o.applySubObjectDefaultValuesRecursive(propertyID, property, rawData, map[Object]struct{}{})
 }
 
-// byValueMembersReach tells if target can be reached from the object through object members that are there whenever
-// the object is: members held by value, and members with a declared default.
-func byValueMembersReach(from Object, target Object, seen map[Object]struct{}) bool {
-	if from == target {
+// byValueMembersLoop tells if following the object members that are there whenever the object is - members held by
+// value, and members with a declared default - leads from the object into a loop. onPath holds the objects between the
+// start and the current one, loopFree the objects already found not to lead into one.
+func byValueMembersLoop(from Object, onPath map[Object]struct{}, loopFree map[Object]struct{}) bool {
+	if _, isOnPath := onPath[from]; isOnPath {
 		return true
 	}
-	if _, alreadySeen := seen[from]; alreadySeen {
+	if _, isLoopFree := loopFree[from]; isLoopFree {
 		return false
 	}
-	seen[from] = struct{}{}
+	onPath[from] = struct{}{}
+	defer delete(onPath, from)
 	for _, property := range from.Properties() {
 		if property.ReflectedType().Kind() == reflect.Pointer && property.Default() == nil {
 			continue
@@ -476,18 +478,17 @@ func byValueMembersReach(from Object, target Object, seen map[Object]struct{}) b
 		default:
 			continue
 		}
-		if byValueMembersReach(subObject, target, seen) {
+		if byValueMembersLoop(subObject, onPath, loopFree) {
 			return true
 		}
 	}
+	loopFree[from] = struct{}{}
 	return false
 }
 
 // applySubObjectDefaultValuesRecursive does the work of applySubObjectDefaultValues. The visiting set holds the
-// objects on the current path so that self-referential object graphs terminate. The owner is the object the
-// property belongs to.
+// objects on the current path so that self-referential object graphs terminate.
 func (o *ObjectSchema) applySubObjectDefaultValuesRecursive(
-	owner Object,
 	propertyID string,
 	property *PropertySchema,
 	rawData map[string]any,
@@ -509,9 +510,11 @@ func (o *ObjectSchema) applySubObjectDefaultValuesRecursive(
 	if _, alreadyVisiting := visiting[subObject]; alreadyVisiting {
 		return
 	}
-	if byValueMembersReach(subObject, owner, map[Object]struct{}{}) {
-		// The member leads back to its owner (a recursive type held through a pointer field): completing it from
-		// defaults would never end, since every completed member lacks the same member again. It stays absent.
+	if byValueMembersLoop(subObject, map[Object]struct{}{}, map[Object]struct{}{}) {
+		// The member is part of, or leads into, a loop of objects (a recursive type held through a pointer field):
+		// completing it from defaults would never end, since every completed member lacks the same member again. It
+		// stays absent - also where the loop is only reached through other objects, so that a schema means the same
+		// whether an object is written in place or referenced.
 		return
 	}
 	visiting[subObject] = struct{}{}
@@ -539,7 +542,7 @@ func (o *ObjectSchema) applySubObjectDefaultValuesRecursive(
 		}
 	}
 	for subPropertyID, subProperty := range subObject.Properties() {
-		o.applySubObjectDefaultValuesRecursive(subObject, subPropertyID, subProperty, data, visiting)
+		o.applySubObjectDefaultValuesRecursive(subPropertyID, subProperty, data, visiting)
 	}
 	if len(data) != 0 {
 		rawData[propertyID] = data
